@@ -1,1 +1,63 @@
-From TV Require Import Base.
+From TV Require Import Base Model.Wiring Model.Sim Model.Ledger.
+Open Scope Z_scope.
+
+Definition run_ledger (evs : list lev) : ledger := fold_left lstep evs lg0.
+
+(* the helper tasks of the master loop and of a system component's on_tick: created in pairs,
+   released in pairs, never more than one pair alive *)
+Lemma bracketed_inv evs : forall (l : ledger) (in_turn in_sys : bool),
+  lg_master l = (if in_turn then 2 else 0) -> lg_system l = (if in_sys then 2 else 0) ->
+  bracketed in_turn in_sys evs = true ->
+  forall pre post, evs = pre ++ post ->
+  let l' := fold_left lstep pre l in
+  0 <= lg_master l' <= 2 /\ 0 <= lg_system l' <= 2.
+Proof.
+  induction evs as [|e t IH]; intros l it is_ Hm Hs Hb pre post E.
+  - destruct pre; [|discriminate]. simpl. rewrite Hm, Hs. destruct it, is_; lia.
+  - destruct pre as [|e' pre'].
+    + simpl. rewrite Hm, Hs. destruct it, is_; lia.
+    + simpl in E. inversion E; subst e' t. simpl.
+      destruct e; simpl in Hb.
+      * apply andb_true_iff in Hb. destruct Hb as [H1 H2]. apply negb_true_iff in H1. subst it.
+        apply (IH (lstep l LTurnStart) true is_) with (post := post); [simpl; lia | simpl; exact Hs | exact H2 | reflexivity].
+      * apply andb_true_iff in Hb. destruct Hb as [H1 H2]. subst it.
+        apply (IH (lstep l LSleepWins) false is_) with (post := post); [simpl; lia | simpl; exact Hs | exact H2 | reflexivity].
+      * apply andb_true_iff in Hb. destruct Hb as [H1 H2]. subst it.
+        apply (IH (lstep l LWakeWins) false is_) with (post := post); [simpl; lia | simpl; exact Hs | exact H2 | reflexivity].
+      * apply andb_true_iff in Hb. destruct Hb as [H1 H2]. apply negb_true_iff in H1. subst is_.
+        apply (IH (lstep l LSysTickStart) it true) with (post := post); [simpl; exact Hm | simpl; lia | exact H2 | reflexivity].
+      * apply andb_true_iff in Hb. destruct Hb as [H1 H2]. subst is_.
+        apply (IH (lstep l LSysTickEnd) it false) with (post := post); [simpl; exact Hm | simpl; lia | exact H2 | reflexivity].
+      * apply (IH (lstep l LChunk) it is_) with (post := post); [simpl; exact Hm | simpl; exact Hs | exact Hb | reflexivity].
+      * apply (IH (lstep l LReplyDone) it is_) with (post := post); [simpl; exact Hm | simpl; exact Hs | exact Hb | reflexivity].
+Qed.
+
+(* the TCP handler retains, after each chunk, exactly the reply tasks still running plus the new
+   one: if at most K replies are ever in flight the retained list never exceeds K *)
+Lemma tcp_retained_bound K evs : forall l,
+  0 <= lg_tcp_live l -> lg_tcp_retained l <= K ->
+  (forall pre post, evs = pre ++ post -> lg_tcp_live (fold_left lstep pre l) <= K) ->
+  forall pre post, evs = pre ++ post -> lg_tcp_retained (fold_left lstep pre l) <= K.
+Proof.
+  induction evs as [|e t IH]; intros l Hl Hr Hlive pre post E.
+  - destruct pre; [|discriminate]. exact Hr.
+  - destruct pre as [|e' pre']; [exact Hr|].
+    simpl in E. inversion E; subst e' t. simpl.
+    apply (IH (lstep l e)) with (post := post); [| | |reflexivity].
+    + destruct e; simpl; lia.
+    + assert (H1 := Hlive [e] (pre' ++ post) eq_refl). simpl in H1.
+      destruct e; simpl in *; lia.
+    + intros p q Epq. specialize (Hlive (e :: p) q). simpl in Hlive. apply Hlive. rewrite Epq. reflexivity.
+Qed.
+
+(* the steady-state task count depends on the configuration only *)
+Lemma level_tasks_nonneg fuel cfg : forall lv, 0 <= level_tasks fuel cfg lv.
+Proof.
+  induction fuel as [|f IH]; intros lv; simpl; [lia|].
+  assert (H : forall l acc, 0 <= acc ->
+            0 <= fold_left (fun acc (ck : comp * ckind) =>
+                              acc + match snd ck with KDev => 2 | KSys lv' => 1 + level_tasks f cfg lv' end) l acc).
+  { induction l as [|[c k] r IHl]; intros acc Ha; cbn [fold_left snd]; [exact Ha|]. apply IHl.
+    destruct k as [|lv']; [lia|]. specialize (IH lv'). lia. }
+  apply H. lia.
+Qed.
